@@ -149,6 +149,11 @@ let rec handle (line : string) : string =
     let rs = Lazy.force st.rs in
     "s=" ^ show_sig (deobfuscate (sclass rs) s) ^ ";c=" ^ (if is_big st then "SKIPPED" else c_sig (Lazy.force st.pc) s)
   | ["W"] -> if is_big_writer st then "w=SKIPPED" else "w=" ^ hex_of_str (Lazy.force st.cbytes)
+  | ["WP"] ->
+    (* both releases' writers: the current model and the complete pinned writer (PinnedModel.v: F1, F2, F7) *)
+    if is_big_writer st then "w=SKIPPED"
+    else "w=" ^ hex_of_str (Lazy.force st.cbytes) ^ ";wp=" ^ hex_of_str (snapshot_write st.bytes)
+  | ["NOP"] -> ""
   | ["X"; h] -> let r = parse (str_of_hex h) in xcache := r; "r=" ^ show_presult r
   | ["k"; c] -> "c=" ^ c_class !xcache (str_of_hex c)
   | ["t"; c; m] -> "c=" ^ c_method !xcache (str_of_hex c) (str_of_hex m)
